@@ -267,6 +267,41 @@ def run(ctx):
                 okh = bool(rsv) and A.tkey(rsv[0].a[1][1]) == A.tkey(idt)
                 ctx.ob("R-C12.4", rkf, "recovered-handle-pairs-id-with-its-name", okh, "from_database(id, .., name = resolve_id(id))" if okh else "recovered handle pairs id %s with a name resolved from another id" % A.tstr(idt)[:60], rkf.loc(b))
 
+    # ids still referenced by journal records are never handed out again: the directory scan above cannot see the id of a
+    # DELETED keyspace (its directory is gone) while its records are still in a journal — a keyspace created after the
+    # reopen would get that id and the following reopen would replay the deleted keyspace's records into it
+    for fid in ("db::Database::recover", "recovery::recover_sealed_memtables"):
+        fn = ctx.fn(fid, "R-C12.4")
+        if not fn:
+            continue
+        og = ctx.og(fn)
+        rs = [b for b in R.call_blocks(fn, (RESOLVE,)) if A.in_cycle(fn, b)]
+        bumps = []
+        for b, t in fn.calls():
+            if A.cname(t) == "lsm_tree::SequenceNumberCounter::fetch_max" and A.in_cycle(fn, b):
+                recv = og.of_operand(t["args"][0])
+                if any(x.k == "field" and x.a[1] == "keyspace_id_counter" for x in A.walk(recv)):
+                    v = og.of_operand(t["args"][1])
+                    while v.k == "field" and v.a[1] == "0":
+                        v = v.a[0]
+                    plus1 = v.k == "bin" and v.a[0].startswith("Add") and v.a[2].k == "const" and v.a[2].a == ("int", 1)
+                    bumps.append((b, plus1, v))
+        # every id resolution inside the replay loops is preceded (dominated) by a bump with that very id + 1
+        missing = []
+        for r in rs:
+            idt = og.of_operand(fn.term(r)["args"][1])
+            okb = False
+            for b, plus1, v in bumps:
+                if plus1 and A.dominates(fn, b, r) and A.same_value_site(v.a[1], idt):
+                    okb = True
+            if not okb:
+                missing.append(r)
+        ok = bool(rs) and not missing
+        ctx.ob("R-C12.4", fn, "replayed-ids-are-never-handed-out-again", ok,
+               "every keyspace id met in a journal record (items and clears, known or not) raises keyspace_id_counter above it" if ok
+               else "a keyspace id met in a replayed journal record does not raise keyspace_id_counter (%d of %d resolution sites): after delete -> reopen -> create the new keyspace reuses the deleted keyspace's id and the next reopen replays the deleted keyspace's records into it" % (len(missing), len(rs)),
+               fn.loc(missing[0]) if missing else "")
+
     # ---- R-C12.5 deletion order on last drop
     kd = ctx.fn("<keyspace::KeyspaceInner as std::ops::Drop>::drop", "R-C12.5")
     if kd:
